@@ -29,7 +29,7 @@ type kase struct {
 	Start int    `json:"start,omitempty"`
 	End   int    `json:"end,omitempty"`
 	Same  bool   `json:"dst_is_src,omitempty"`
-	Used  int    `json:"dst_used,omitempty"` // dst != src: 0 a fresh destination, 1 one that already holds a longer result (circular, offset 5), 2 a one-letter result
+	Used  int    `json:"dst_used,omitempty"` // dst != src: 0 a fresh destination, 1 one that already holds a longer result (circular, offset 5), 2 a one-letter result, 3 a struct copy of the source (another object over the same array), 4 another object that was given the source's letters from its second position on (SetSlice)
 	L2    int    `json:"len2,omitempty"`
 	Circ2 bool   `json:"circular2,omitempty"`
 	Where int    `json:"where,omitempty"`
@@ -114,6 +114,31 @@ func empty(k kase) sq {
 		return linear.NewQSeq("d", nil, k.alpha(), alphabet.Sanger)
 	}
 	return linear.NewSeq("d", nil, k.alpha())
+}
+
+// destination returns the destination of a case whose dst differs from src.
+func destination(k kase, src sq) sq {
+	switch k.Used {
+	case 3:
+		switch t := src.(type) {
+		case *linear.Seq:
+			cp := *t
+			return &cp
+		case *linear.QSeq:
+			cp := *t
+			return &cp
+		}
+	case 4:
+		d := empty(kase{Q: k.Q, Prot: k.Prot})
+		sl := src.Slice()
+		if sl.Len() > 0 {
+			d.SetSlice(sl.Slice(1, sl.Len()))
+		} else {
+			d.SetSlice(sl)
+		}
+		return d
+	}
+	return empty(k)
 }
 
 func read(s sq) []alphabet.QLetter {
@@ -203,7 +228,7 @@ func check(c *enum.Ctx, k kase) {
 		orig := read(src)
 		dst := src
 		if !k.Same {
-			dst = empty(k)
+			dst = destination(k, src)
 		}
 		var err error
 		if c.Guard("truncate/panic", k, func() { err = sequtils.Truncate(dst, src, k.Start, k.End) }) {
@@ -289,7 +314,7 @@ func check(c *enum.Ctx, k kase) {
 		orig := read(src)
 		dst := src
 		if !k.Same {
-			dst = empty(k)
+			dst = destination(k, src)
 		}
 		fs := mkFeats(k.Feats)
 		end := k.Off + k.L
@@ -399,7 +424,7 @@ func check(c *enum.Ctx, k kase) {
 }
 
 func run(c *enum.Ctx) {
-	c.Rule("Truncate: every (start,end) in [off-2,off+L+2]^2 for L=0..5 (thorough 6), offsets {-2,0,3}, linear/circular, dst==src, a fresh dst and a dst that already holds an earlier (longer circular / one-letter) result, linear.Seq and linear.QSeq; Join: all length pairs 0..3 x both ends x conformations; Stitch/Compose: every list of <=2 (thorough 3) features whose interval intersects or abuts the sequence within [off-1,off+L+1], orientation forward/reverse/none/not-an-Orienter, complementing (DNAredundant) and non-complementing (Protein) alphabets, both sequence types, dst==src / fresh / previously used, L=0..4; Trim: every vector of length 0..6 (thorough 7) over (limit-e) in {-2,-1,0,1,2}/4 at offsets {0,3}; feature lists of 2^k-1, 2^k, 2^k+1 features (3..257, thorough 1025) in three fixed patterns around a 15-letter sequence; every Truncate/Join case again directly after a rejected call of the same function, every Stitch/Compose case after a rejected Stitch and a rejected Compose (an inverted feature behind two good ones) on other sequences; all positions carry distinct letters (and qualities); non-trivial = cases where the operation is expected to succeed on a non-empty result")
+	c.Rule("Truncate: every (start,end) in [off-2,off+L+2]^2 for L=0..5 (thorough 6), offsets {-2,0,3}, linear/circular, dst==src, a fresh dst, a dst that already holds an earlier (longer circular / one-letter) result, a dst that is a struct copy of the source and one that was handed the source's letters from the second on, linear.Seq and linear.QSeq; Join: all length pairs 0..3 x both ends x conformations; Stitch/Compose: every list of <=2 (thorough 3) features whose interval intersects or abuts the sequence within [off-1,off+L+1], orientation forward/reverse/none/not-an-Orienter, complementing (DNAredundant) and non-complementing (Protein) alphabets, both sequence types, dst==src / fresh / previously used, L=0..4; Trim: every vector of length 0..6 (thorough 7) over (limit-e) in {-2,-1,0,1,2}/4 at offsets {0,3}; feature lists of 2^k-1, 2^k, 2^k+1 features (3..257, thorough 1025) in three fixed patterns around a 15-letter sequence; every Truncate/Join case again directly after a rejected call of the same function, every Stitch/Compose case after a rejected Stitch and a rejected Compose (an inverted feature behind two good ones) on other sequences; all positions carry distinct letters (and qualities); non-trivial = cases where the operation is expected to succeed on a non-empty result")
 	c.Assume("Compose features are at least abutting the sequence (a feature entirely outside is out of scope)", "Trim: an empty window is accepted anywhere; values are dyadic so sums are exact")
 	maxL, maxF, maxT := 5, 2, 6
 	if !c.Quick {
@@ -415,7 +440,7 @@ func run(c *enum.Ctx) {
 							for _, same := range []bool{false, true} {
 								cases = append(cases, kase{Kind: "truncate", Q: q, L: L, Off: off, Circ: circ, Start: s, End: e, Same: same})
 							}
-							for used := 1; used <= 2; used++ {
+							for used := 1; used <= 4; used++ {
 								cases = append(cases, kase{Kind: "truncate", Q: q, L: L, Off: off, Circ: circ, Start: s, End: e, Used: used})
 							}
 						}
@@ -471,6 +496,7 @@ func run(c *enum.Ctx) {
 						}
 						if off != -2 {
 							cfgs = append(cfgs, cfg{kind, q, prot, L, off, false, false, 1 + (L+off)%2})
+							cfgs = append(cfgs, cfg{kind, q, prot, L, off, false, false, 3 + (L+off)%2})
 						}
 					}
 				}
